@@ -16,7 +16,7 @@ from ..common import Ctx, tlc, tlc_ok, pmap, mc_module, workdir, rmtree
 from .. import ptrace, corpus
 
 ALL_KINDS = {"typedef", "obj", "fdecl", "enum", "enum2", "enumS", "member", "tag", "label", "proto", "forinit",
-             "probeI", "probeS", "func", "func0", "krfunc", "open"}
+             "probeI", "probeS", "func", "func0", "funcN", "krfunc", "open"}
 DEV_ITEMS = {"forinit", "krfunc", "enum2", "enumS", "enum", "label"}
 
 
@@ -31,6 +31,7 @@ SPELL = {
     "proto": ["void g%i(int %n);", "void g%i(int %n, ...);", "struct SPr%i { void (*cb)(int %n); };", "void g%i(int %n[]);",
               "void (*gp%i)(int %n);", "int g%i(int zq%i, int *%n);", "void g%i(void (*cb)(int %n));"],
     "func": ["void f(int %n) {", "void f(int *%n) {", "void f(int zq%i, int %n) {", "void f(int %n[]) {", "int f(int %n, ...) {"],
+    "funcN": ["int %n(void) {", "int %n() {", "static int *%n(void) {", "%n() {", "void %n(int zq%i) {", "int (%n)(void) {"],
     "func0": ["void f(void) {", "void f() {", "int f() {", "f() {", "static int *f() {"],
     "forinit": ["for (int %n = 0;;) { }", "for (int zq%i = 0, %n = 1;;) ;", "for (int *%n = 0;;) { }"],
     "enum": ["enum { %n };", "enum { %n = 1 };", "enum EE%i { %n, };"],
@@ -59,7 +60,7 @@ def render(prog, shape, variant=None):
         n = it[1] if len(it) > 1 else None
         if k in ("typedef", "obj", "fdecl", "enum", "member", "tag", "proto", "forinit"):
             out.append(spell(k, n, i, variant))
-        elif k in ("func", "func0"):
+        elif k in ("func", "func0", "funcN"):
             out.append(spell(k, n, i, variant))
             closers.append("}")
             depth += 1
@@ -232,11 +233,11 @@ def run(tier):
               30000 if tier == "quick" else None)]
     if tier == "quick":
         plans.append(("1 name, <=6 items, depth 2, core kinds", ["T"], 6, 2,
-                      {"typedef", "obj", "enum", "func", "func0", "open", "forinit", "label", "proto", "tag", "member"}, 20000))
+                      {"typedef", "obj", "enum", "func", "func0", "funcN", "open", "forinit", "label", "proto", "tag", "member"}, 20000))
     else:
         plans.append(("2 names, <=5 items, depth 2, all item kinds", ["T", "U"], 5, 2, ALL_KINDS, None))
         plans.append(("1 name, <=7 items, depth 3", ["T"], 7, 3,
-                      {"typedef", "obj", "enum", "func", "func0", "open", "forinit", "krfunc", "enum2"}, None))
+                      {"typedef", "obj", "enum", "func", "func0", "funcN", "open", "forinit", "krfunc", "enum2"}, None))
     protocol_model(ctx, tier)
     traced = []
     for label, names, items, depth, kinds, sample in plans:
